@@ -80,8 +80,8 @@ ASSUMPTIONS = [
     "identity)",
     "cmp_expr raising on two valid operand expressions is counted as a violation of totality",
 ]
-BUDGET = {"quick": 55, "thorough": 330}
-NCASES = {"quick": 6400, "thorough": 64000}
+BUDGET = {"quick": 50, "thorough": 330}
+NCASES = {"quick": 4800, "thorough": 64000}
 WORKERS = {"quick": 16, "thorough": 16}
 EVAL_COUNTER = "constructor_pairs"
 FLOORS = {
